@@ -109,14 +109,19 @@ def _shape(n1, n2, r1, r2, **kw):
 
 
 def _reshape_array_as_excel(value, base_shape):
-    try:
-        return np.reshape(value, base_shape)
-    except ValueError:
-        res, r, c = _init_reshape(base_shape, value)
-        try:
-            res[:r, :c] = value
-        except ValueError:
-            res[:, :] = Error.errors['#VALUE!']
+    shape, base_shape = np.shape(value), tuple(base_shape)
+    if shape == base_shape:
+        return value
+    collapse = getattr(value, '_collapse_value', None)
+    if collapse is not None and base_shape == (1, 1):
+        value = np.asarray([[collapse]], object)
+    elif len(shape) != 2 or (min(shape) == min(base_shape) == 1 and
+                             max(shape) == max(base_shape)):
+        return np.reshape(value, base_shape)  # A vector given the other way.
+    # A single row or column repeats, the surplus is dropped, the rest is #N/A.
+    res, r, c = _init_reshape(base_shape, value)
+    r, c = (n and min(n, m) for n, m in zip((r, c), base_shape))
+    res[:r, :c] = value[:r, :c]
     return res
 
 
